@@ -312,9 +312,12 @@ def satisfies(t, v, u, mod=None):
     if k == "none":
         return v is None
     if k == "obj":
-        if not (isinstance(v, dict) or type(v).__name__ == f"C{t[1]}"):
-            return False
         c = u["classes"][t[1]]
+        if c["kind"] == "typeddict":
+            if not isinstance(v, dict) or any(f["required"] and f["name"] not in v for f in c["fields"]):
+                return False
+        elif type(v).__name__ != f"C{t[1]}":
+            return False
         for f in c["fields"]:
             if isinstance(v, dict):
                 if f["name"] not in v:
